@@ -4,6 +4,9 @@
 //! including SPSC, MPMC, MPSC, SPMC, and Oneshot. It aims for peak performance
 //! while offering both synchronous and asynchronous APIs.
 
+// `excsn_fibre_verif` is a verification-only cfg passed via RUSTFLAGS.
+#![allow(unexpected_cfgs)]
+
 pub mod error;
 
 // Channel type modules
@@ -15,6 +18,10 @@ pub mod mpmc_v2;
 pub use mpmc_v2 as mpmc;
 pub mod mpmc_exp;
 pub mod telemetry;
+
+/// Verification hooks; exists only under `--cfg excsn_fibre_verif`.
+#[cfg(excsn_fibre_verif)]
+pub mod verif;
 
 /// Hybrid sync/async locking primitives (`HybridMutex`, `HybridRwLock`).
 /// FIFO wait-list, spin-yield-then-park, barging.
